@@ -1,7 +1,7 @@
 #!/usr/bin/env python3
-"""dev tool (not run by bin/check): harness journals -> KF-C14-* entries.
-   gen/c14_findings.py <journals of c14_faults --mode fault|abandon|weight|reject ...> [--write]
---write replaces the C14 entries of /verif/known_findings.json (everybody else's are kept)."""
+"""dev tool (not run by bin/check): harness journals -> KF-C14-* entries (ids are stable; entries no longer observed become "fixed").
+   gen/c14_findings.py <journals of c14_faults --mode fault|abandon|weight|reject ...> [--write [--no-fix]]
+--write updates the C14 entries of /verif/known_findings.json (everybody else's are kept; the file is re-read right before)."""
 import sys, json, collections, subprocess, re
 sys.path.insert(0, '/verif')
 import checks.c14 as c
@@ -89,23 +89,56 @@ for (site, tag), e in acc.items():
     entries.append({"site": site, "predicate": tag, "what": what, "witness": wit})
 
 SPECIAL = {
+ ("reject:Octagonal_Shape_mpq:expand_space_dimension_overflow", "throws_invalid_argument_instead_of_length_error"): "Octagonal_Shape::expand_space_dimension throws std::invalid_argument where std::length_error is documented. REOPENED: a664620 repaired it, commit 38ad585 (relation_with(Congruence) of BD_Shape and Octagonal_Shape) rewrote Octagonal_Shape_templates.hh from a copy without that hunk; re-apply /verif/fixes/fix_c14_octagon_expand_length_error_reapply.diff",
  ("unfaulted:Rational_Box.bounded_affine_preimage", "crash_without_fault"): "Box::bounded_affine_preimage(var, lb, ub, d) with well-formed arguments dies with SIGFPE (GMP division by zero, DESIGN section 9 defect 13): an exit that is neither a return nor a documented exception",
  ("unfaulted:Rational_Box.ctor_from_C_Polyhedron_poly", "fails_without_fault"): "Box(const Polyhedron& ph, POLYNOMIAL_COMPLEXITY) on an empty polyhedron whose emptiness is not yet detected throws std::length_error (Variable(i): i exceeds the maximum allowed variable identifier): an undocumented exception out of a well-formed call",
  ("reject:Weightwatch:ctor_threshold_already_reached", "rejected_call_leaks"): "Threshold_Watcher(delta, holder, flag) allocates its handler in the member initialiser and then throws std::invalid_argument (threshold already reached, delta == 0): the constructor exits without deleting the handler (1 operator-new block per rejected call)",
 }
 kfp = '/verif/known_findings.json'
-cur = json.load(open(kfp))
-others = [f for f in cur["findings"] if f.get("property") != "C14"]
+# commits of /repo that repaired earlier findings: (site, predicate) patterns -> commit
+FIXED_BY = [
+ (lambda s, p: p == "element_copy_throws_in_fill_loop", "b3209bf"),
+ (lambda s, p: p == "begin_ne_end_on_empty_tree", "6fe0c25"),
+ (lambda s, p: p == "constraint_copies_not_deleted_when_constructor_throws", "08ac3bf"),
+ (lambda s, p: s == "Dense_Row@protocol", "47812c6"),
+ (lambda s, p: s == "reject:Weightwatch:ctor_threshold_already_reached", "e927285"),
+ (lambda s, p: s == "reject:Rational_Box:widening_assign_dim", "fbacad8"),
+ (lambda s, p: s == "reject:Pointset_Powerset_C:difference_assign_dim", "ecc2e43"),
+ (lambda s, p: s == "reject:Pointset_Powerset_C:remove_higher_space_dimensions_dim", "57e6f2b"),
+ (lambda s, p: s.endswith(":expand_space_dimension_overflow"), "a664620"),
+]
+def main_write(entries):
+    import subprocess
+    head = subprocess.run(["git", "-C", "/repo", "log", "--oneline", "-1"], stdout=subprocess.PIPE, text=True).stdout.split()[0]
+    cur = json.load(open(kfp))                      # re-read right before writing; keep everybody else's entries
+    others = [f for f in cur["findings"] if f.get("property") != "C14"]
+    old = [f for f in cur["findings"] if f.get("property") == "C14"]
+    seen = {(e["site"], e["predicate"]): e for e in entries}
+    out, used = [], set()
+    nmax = max([int(f["id"].split("-")[-1]) for f in old] + [0])
+    for f in old:                                   # ids are stable
+        key = (f["site"], f["predicate"])
+        if key in seen:
+            f["status"] = "open"; f.pop("fixed_by", None)
+            f["what"] = seen[key]["what"]; f["witness"] = seen[key]["witness"]
+            used.add(key)
+        elif f.get("status") != "fixed" and "--no-fix" not in sys.argv:
+            f["status"] = "fixed"
+            commit = next((c for t, c in FIXED_BY if t(*key)), None)
+            f["fixed_by"] = commit if commit else "8e4f976 (CO_Tree insertion) or another repair landed before %s: no longer observed in the every-k sweeps of seeds 1-3" % head
+        out.append(f)
+    for key, e in seen.items():
+        if key not in used:
+            nmax += 1
+            out.append({"id": "KF-C14-%d" % nmax, "property": "C14", "status": "open", **e})
+    json.dump({"findings": others + out}, open(kfp, "w"), indent=1)
+    import collections
+    print("C14 entries:", collections.Counter(f["status"] for f in out), "; kept", len(others), "others")
+
 for e in entries:
     if (e["site"], e["predicate"]) in SPECIAL:
         e["what"] = SPECIAL[(e["site"], e["predicate"])]
-mine = []
-for n, e in enumerate(entries, 1):
-    mine.append({"id": "KF-C14-%d" % n, "property": "C14", "status": "open", **e})
+json.dump(entries, open('/tmp/c14/kf_mine.json', 'w'), indent=1)
+print(len(entries), "classes observed")
 if "--write" in sys.argv:
-    cur = json.load(open(kfp))                      # re-read right before writing; keep everybody else's entries
-    others = [f for f in cur["findings"] if f.get("property") != "C14"]
-    json.dump({"findings": others + mine}, open(kfp, "w"), indent=1)
-    print("wrote", len(mine), "C14 entries; kept", len(others), "others")
-json.dump(mine, open('/tmp/c14/kf_mine.json', 'w'), indent=1)
-print(len(mine), "entries ->", "/tmp/c14/kf_mine.json")
+    main_write(entries)
